@@ -450,8 +450,8 @@ func (s *Sess) mergeMem(guards []string, mems []*Mem) *Mem {
 	}
 	mergeMap(func(m *Mem) map[string]string { return m.cells }, func(k string) string { return s.cellInit(k, out.cellT[k]) },
 		func(k string) string { return s.sortOf(out.cellT[k]) }, out.cells)
-	mergeMap(func(m *Mem) map[string]string { return m.ghost }, func(k string) string { return s.ghostGet(&Mem{ghost: map[string]string{}}, k, s.g.ghostSort(k)) },
-		func(k string) string { return s.g.ghostSort(k) }, out.ghost)
+	mergeMap(func(m *Mem) map[string]string { return m.ghost }, func(k string) string { return s.ghostGet(&Mem{ghost: map[string]string{}}, k, s.ghostSortOf(k)) },
+		func(k string) string { return s.ghostSortOf(k) }, out.ghost)
 	return out
 }
 
